@@ -674,11 +674,12 @@ func init() {
 			c.Sample(map[string]any{"machine": m.Name, "states": st.States, "transitions": st.Transitions, "ops": m.NumOps})
 		}
 		for _, m := range sm {
-			m.MaxStates = 6000
+			m.MaxDepth = 3 // every setter sequence of length <= 3 (4 in the thorough tier)
 			if !c.Quick() {
-				m.MaxStates = 60000
+				m.MaxDepth = 4
 			}
 			st := BFS(c, m)
+			c.Exhaustive = c.Exhaustive && st.Complete
 			c.Sample(map[string]any{"machine": m.Name, "states": st.States, "transitions": st.Transitions, "bfs_depth": st.MaxDepth, "complete": st.Complete})
 			c.Bound["settings_depth_"+m.Name] = st.MaxDepth
 		}
@@ -687,8 +688,8 @@ func init() {
 			c.Exhaustive = c.Exhaustive && st.Complete
 			c.Sample(map[string]any{"machine": m.Name, "states": st.States, "transitions": st.Transitions})
 		}
-		c.Rule = "three BFS families on the real code: (1) option bits - every tri-state method found by reflection x {true,false,toggle} from every reachable option set (complete: 2^8 sets on Stacks); (2) string-valued settings (ID, category, delimiter, symbol, encapsulation, auxiliary, FIFO) - breadth-first to a state cap, complete to the reported depth; (3) log levels - fix-point over reachable masks with names, constants and raw ints (pairs of arguments in the thorough tier). non-trivial = distinct (state, operation) pairs"
-		c.Assumptions = append(c.Assumptions, "log-level 'none'/'all' shortcuts follow the documentation in log.go (set none = clear and stop, set all = everything and stop, unset none = skip, unset all = clear and stop)", "the settings family is breadth-first complete only to the depth reported in coverage.bound (state cap), which is at least 3")
+		c.Rule = "three BFS families on the real code: (1) option bits - every tri-state method found by reflection x {true,false,toggle} from every reachable option set (complete: 2^8 sets on Stacks); (2) string-valued settings (ID, category, delimiter, symbol incl. a letter symbol, case-fold, encapsulation incl. letters, auxiliary, FIFO) - every setter sequence of length <= 3 (quick) / 4 (thorough) from every kind, with state de-duplication; (3) log levels - fix-point over reachable masks with names, constants and raw ints (pairs of arguments in the thorough tier). non-trivial = distinct (state, operation) pairs"
+		c.Assumptions = append(c.Assumptions, "log-level 'none'/'all' shortcuts follow the documentation in log.go (set none = clear and stop, set all = everything and stop, unset none = skip, unset all = clear and stop)", "the settings family covers all setter sequences up to the depth reported in coverage.bound, not a fix-point")
 	}, Replay: func(c *Ctx, raw json.RawMessage) {
 		var hc histCase
 		json.Unmarshal(raw, &hc)
